@@ -7,6 +7,7 @@
 
 #include <atomic>
 #include <functional>
+#include <memory>
 #include <string>
 #include <utility>
 #include <vector>
@@ -145,6 +146,28 @@ namespace rkverif {
           delete t;
       }
       rkcommon::tasking::detail::scheduleTaskInternal(task);
+    }
+
+    // ---- R-C02-8: a scheduler that may hold queued tasks is drained before its pipes are discarded
+    static std::unique_ptr<enki::TaskScheduler> w_ts;
+
+    inline void reinitKeepsScheduler(int n)  // Initialize() stops the threads and deletes the pipes: queued tasks are dropped
+    {
+      if (w_ts.get() == nullptr)
+        w_ts = std::unique_ptr<enki::TaskScheduler>(new enki::TaskScheduler());
+      w_ts->Initialize(n);
+    }
+
+    inline void reinitFresh(int n)  // the old scheduler's destructor drains; the new one is empty
+    {
+      w_ts.reset(new enki::TaskScheduler());
+      w_ts->Initialize(n);
+    }
+
+    inline void reinitDrained(int n)
+    {
+      w_ts->WaitforAll();
+      w_ts->Initialize(n);
     }
 
     // ---- R-C02-7: sleep/wake handshake (register, re-check, sleep / publish, wake)
